@@ -707,6 +707,11 @@ func (w *Walker) runDefers(fr *frame) {
 	w.defers[len(w.defers)-1] = nil
 	for i := len(ds) - 1; i >= 0; i-- {
 		d := ds[i]
+		if d.name == "builtin:close" && len(d.args) == 1 {
+			// defer close(ch): the channel is closed when the function returns
+			w.event(Event{Kind: "close", Name: d.args[0].String(), Args: d.args, Pos: d.pos, Instr: d.inst, Deferred: true, Fn: fr.fn, Depth: fr.depth})
+			continue
+		}
 		w.event(Event{Kind: "call", Name: d.name, Args: d.args, Pos: d.pos, Instr: d.inst, Deferred: true, Fn: fr.fn, Depth: fr.depth})
 	}
 }
@@ -1379,6 +1384,23 @@ func (w *Walker) call(fr *frame, c *ssa.CallCommon, in ssa.Instruction, rt types
 
 	if strings.HasPrefix(name, "builtin:") {
 		return w.builtin(strings.TrimPrefix(name, "builtin:"), args, in, rt, fn, depth)
+	}
+	// an interface method called on a value whose dynamic type is known on this path (a strategy object built a
+	// few lines earlier): the call is the call of that type's method
+	if c.IsInvoke() && len(args) > 0 && args[0].Op == "iface" && args[0].Dyn != nil && w.Inline != nil && depth < w.MaxDepth {
+		if sel := w.P.SSA.MethodSets.MethodSet(args[0].Dyn).Lookup(c.Method.Pkg(), c.Method.Name()); sel != nil {
+			if callee := w.P.SSA.MethodValue(sel); callee != nil && callee.Blocks != nil && inModule(callee) && !w.Opaque[calleeName(callee)] && w.Inline(callee, depth) {
+				cargs := append([]*Term{args[0].Args[0]}, args[1:]...)
+				res, _ := w.exec(callee, cargs, nil, depth+1)
+				switch len(res) {
+				case 0:
+					return &Term{Op: "tuple", Typ: rt}
+				case 1:
+					return res[0]
+				}
+				return &Term{Op: "tuple", Args: res, Typ: rt}
+			}
+		}
 	}
 	if w.OnCall != nil {
 		if r, handled := w.OnCall(w, name, args, c, in); handled {
